@@ -108,6 +108,20 @@ var regression = [][]string{
 
 func Main(args []string) int {
 	r := ev.New("C05", "exploration")
+	if rc := Drive(r, args, false); rc != 0 {
+		return rc
+	}
+	r.Set("segment_alphabet", segAlphabet)
+	r.Assume("reference router: a template matches a path iff some assignment of slash-free strings to its parameters reproduces the path; matching is on URL.Path, or on the reference-normalised RawPath when one is set")
+	r.Assume("restricted completeness is demanded only for instances whose values are non-empty and contain no '/', no '%' and none of the bytes that directly follow any parameter in the set; OPTIONS 204 with Access-Control-Allow-Methods is accepted as the documented default for 405")
+	return r.Finish("route sets over the segment alphabet (regression list + stride through all 1- and 2-template sets of depth<=2 + PRNG sets of 3-4 templates of depth<=3, 1-3 methods each), servers regenerated from /repo; per set: template instances with fresh, sibling-static, tail-byte, empty and escaped values, near misses, re-escaped and hand-built URLs, malformed RawPath, every path shorter than max_len over the set's own alphabet, nine methods, with and without path prefix (also with the prefix needlessly escaped); each decided by the reference router. distinct = (set, method, request-target) on sets with a parameter or with status != 404", 5000, false)
+}
+
+// Drive generates the route-set servers and runs the router driver, merging what it observed into r.
+// With escapesOnly (used by C12's routing clause) fewer sets are built and only the requests that differ
+// from a canonical spelling by hex case, needless escapes, a hand-built or malformed RawPath, or an escaped
+// path prefix are judged.
+func Drive(r *ev.Run, args []string, escapesOnly bool) int {
 	only := ""
 	if len(args) >= 2 && args[0] == "--replay" {
 		r.Replay = args[1]
@@ -179,6 +193,9 @@ func Main(args []string) int {
 		}
 		r.Set("exhaustive_space_sets", len(pairs))
 		want := r.N(400, 3000)
+		if escapesOnly {
+			want = r.N(60, 600)
+		}
 		if want > len(pairs) {
 			want = len(pairs)
 		}
@@ -190,7 +207,11 @@ func Main(args []string) int {
 		}
 		// PRNG sets of 3-4 templates, depth <= 3, biased to shared prefixes
 		t3 := allTemplates(3)
-		for i := 0; i < r.N(160, 1200); i++ {
+		nRandom := r.N(160, 1200)
+		if escapesOnly {
+			nRandom = r.N(40, 300)
+		}
+		for i := 0; i < nRandom; i++ {
 			k := 3 + rng.Intn(2)
 			var ps []string
 			base := ev.Pick(rng, t3)
@@ -259,8 +280,8 @@ func Main(args []string) int {
 			}
 			live = append(live, s)
 		}
-		data, _ := json.Marshal(servlab.C05Data{Sets: live, MaxLen: r.N(4, 5), Only: only})
-		res, err := drv.Run(servlab.Job{Driver: "c05", Prop: "C05", Data: data}, 40*time.Minute)
+		data, _ := json.Marshal(servlab.C05Data{Sets: live, MaxLen: r.N(4, 5), Only: only, EscapesOnly: escapesOnly})
+		res, err := drv.Run(servlab.Job{Driver: "c05", Prop: r.Prop, Data: data}, 40*time.Minute)
 		if err != nil {
 			fmt.Println("ERROR", err)
 			return 2
@@ -280,10 +301,7 @@ func Main(args []string) int {
 		os.Remove(drv.Bin)
 	}
 	r.Set("route_sets_rejected_by_generator", rejected)
-	r.Set("segment_alphabet", segAlphabet)
-	r.Assume("reference router: a template matches a path iff some assignment of slash-free strings to its parameters reproduces the path; matching is on URL.Path, or on the reference-normalised RawPath when one is set")
-	r.Assume("restricted completeness is demanded only for instances whose values are non-empty and contain no '/', no '%' and none of the bytes that directly follow any parameter in the set; OPTIONS 204 with Access-Control-Allow-Methods is accepted as the documented default for 405")
-	return r.Finish("route sets over the segment alphabet (regression list + stride through all 1- and 2-template sets of depth<=2 + PRNG sets of 3-4 templates of depth<=3, 1-3 methods each), servers regenerated from /repo; per set: template instances with fresh, sibling-static, tail-byte, empty and escaped values, near misses, re-escaped and hand-built URLs, malformed RawPath, every path shorter than max_len over the set's own alphabet, nine methods, with and without path prefix; each decided by the reference router. distinct = (set, method, request-target) on sets with a parameter or with status != 404", 5000, false)
+	return 0
 }
 
 func paths(s servlab.C05Set) []string {
